@@ -766,6 +766,28 @@ Definition settle (m : cm) (self : tid) : cm * list Z :=
   (set_exec m1 (c_tasks m1) [],
    [(-1)%Z; Z.of_N (lenN shown)] ++ map (fun tk => Z.of_N (fst tk)) shown ++ [(-2)%Z; Z.of_N n] ++ w).
 
+(* RACE (stream op 24): one poll of open / accept racing the connection error, in the one schedule a
+   sequential history cannot express: the poll has entered its critical section (it holds the stream /
+   listener guards and has seen the components healthy) when DataStreams::on_conn_error begins.
+   Granularity = lock-protected sections.  Everything on_conn_error does - poisoning the output, input
+   and listener tables AND draining the stream-id waiters - happens under those guards, so the close is
+   serialised after the poll's section: the poll completes against the healthy state (and may park its
+   waker), then the whole fan-out runs and finds that waker.  The harness forces exactly this schedule
+   on the real code with two threads; a fan-out step that ran outside the guards would run BEFORE the
+   poll parks and show up as a difference. *)
+Definition race_kind (t : N) (a : list Z) : option kind :=
+  match t, a with
+  | 1, [d] => Some (KOpen (N.min (Z.to_N d) 1))
+  | 2, [d] => Some (KAccept (N.min (Z.to_N d) 1))
+  | _, _ => None
+  end.
+
+Definition race (m : cm) (idx : N) (e : err) (t : N) (a : list Z) : cm * list Z :=
+  match race_kind t a with
+  | Some k => let '(m1, o) := start_task m idx k in (conn_error e m1, o)
+  | None => (m, [(-99)%Z])
+  end.
+
 Definition cm_op (m : cm) (idx : N) (tag : N) (a : list Z) : cm * list Z :=
   match tag, a with
   | 0, [] => handshake m
@@ -791,6 +813,7 @@ Definition cm_op (m : cm) (idx : N) (tag : N) (a : list Z) : cm * list Z :=
   | 21, [e] => (conn_error (Z.to_N e) m, [0%Z])
   | 22, [e] => (flow_conn_error (Z.to_N e) m, [0%Z])
   | 23, [n] => credit m (Z.to_N n)
+  | 24, e :: t :: a' => race m idx (Z.to_N e) (Z.to_N t) a'
   | _, _ => (m, [(-99)%Z])
   end.
 
